@@ -467,16 +467,25 @@ func (x *Exec) merge(st *State, base int, c Term, a, b *State) *State {
 		}
 		m.vars[obj] = mv
 	}
+	// merged heaps get a name (keeps `ite` out of quantifier patterns and terms small)
+	nameHeap := func(prefix, key string, t Term) Term {
+		if !strings.HasPrefix(t.S, "(ite ") {
+			return t
+		}
+		n := x.fresh(prefix+key, t.Sort)
+		m.pc = append(m.pc, Hyp{Eq(n, t), "merge:" + key})
+		return n
+	}
 	for key, ha := range a.heaps {
 		hb, ok := b.heaps[key]
 		if !ok {
 			hb = x.heapDefault(key, ha)
 		}
-		m.heaps[key] = mergeTerm(c, ha, hb)
+		m.heaps[key] = nameHeap("H_", key, mergeTerm(c, ha, hb))
 	}
 	for key, hb := range b.heaps {
 		if _, ok := a.heaps[key]; !ok {
-			m.heaps[key] = mergeTerm(c, x.heapDefault(key, hb), hb)
+			m.heaps[key] = nameHeap("H_", key, mergeTerm(c, x.heapDefault(key, hb), hb))
 		}
 	}
 	for key, ha := range a.fheaps {
@@ -911,6 +920,7 @@ func (x *Exec) runLoop(st *State, ls *loopSpec, k cont) {
 		return
 	}
 	pos := ls.node.Pos()
+	x.anchor(st, fmt.Sprintf("before loop %d", ls.ord), ls.node.Pos(), ls.ord)
 	// (1) invariants hold on entry
 	if lc != nil {
 		for i, inv := range lc.Invariants {
